@@ -11,7 +11,7 @@ EXPLANATION = ("static analysis (MIR abstract interpretation) with compute_swap 
                "route with exactly the previous SwapResult.return_asset, over the same operation fields; no query entry point of any "
                "contract reaches a storage write or an outgoing message (and takes `Deps`, so the type system enforces it)")
 ASSUMPTIONS = ["ReverseSimulation within one unit is numeric and not decided", "routes revisiting a pool are excluded by the property"]
-TECHNIQUE = "static analysis: single-source provenance (cut-point origins) for quote and execution, query purity by effect enumeration and signature"
+TECHNIQUE = "static analysis: single-source provenance (cut-point origins) for quote and execution, query purity by effect enumeration and signature, loop lints on MIR CFG/def-use (accumulators, x=f(x) chains, early exits), iterator-adaptor scan"
 LEVEL_TEXT = "Structural obligations over all paths of Simulation, SimulateSwapOperations, Swap, ExecuteSwapOperations and every query variant."
 LEVEL_NOTE = "Not decided: the reverse quote bound."
 PM = "pool_manager"
